@@ -874,6 +874,16 @@ func (c *Ctx) c15Check(root *CTy, txt string, all []string, cp, target, cls stri
 				}
 			}
 		}
+		// the fields offered at the root, as the model computes them (Mp.offeredFields)
+		if pos == "" && o.Fields != nil && !unspec && !strings.HasPrefix(o.Line, "ERR") && o.Line != "PANIC" && o.Line != "TIMEOUT" {
+			hexes := make([]string, 0, len(o.Fields))
+			for _, f := range o.Fields {
+				hexes = append(hexes, hx(f))
+			}
+			sort.Strings(hexes)
+			ol, _ := json.Marshal(map[string]any{"s": root, "p": []string{}, "cp": cp, "pos": "offers", "dom": !errored})
+			c.Record(ol, "OFF "+strings.Join(hexes, ","), cls+"/offers", !errored, cls+"/offers|"+fmt.Sprint(len(hexes)), "OFF", nil)
+		}
 		// the fields offered at the root must leave out exactly the blocked ones
 		if pos == "" && !errored && o.Fields != nil && !unspec {
 			offered := map[string]bool{}
